@@ -4,7 +4,8 @@
 design check : the field tables of Messages.tla (MC_Messages: the encoding changes only at feature thresholds) and the
                block decoder of Wire.tla (MC_Wire) are the specification the client's byte stream is parsed with.
 binding      : real sessions (Dial + Do) over an in-memory connection against a scripted server at every
-               representative negotiated revision from 54429 up and every compression mode, with query ids / bodies
+               representative negotiated revision 50000..54500 (below 54429 with a Query reader of the harness own) and
+               every compression mode, with query ids / bodies
                (empty, long, non-UTF-8), 0..n connection-level and query-level settings with flags, parameters,
                secret, quota key, initial user, external data (named and default table), plain and streamed inserts
                of several rounds, and up to three further queries on the same connection (fields set by an earlier query
@@ -40,7 +41,9 @@ def body(run):
     d = V.stage_spec(V.workdir(PID, "mc"))
     r = V.tlc(d, "MC_Messages", "MC_Messages.cfg", workers=V.NCPU, timeout=1200)
     V.require_design_check(r, "MC_Messages", 1000)
-    revs = [x for x in S.representatives() if x >= 54429]
+    revs = S.representatives()
+    # (a third of the sessions below 54429, where the Query packet has its older layout)
+    revs = revs + [x for x in revs if x >= 54429]
     sessions = []
     for i in range(6000 if T else 500):
         srev = rng.choice(revs)
@@ -73,12 +76,18 @@ def body(run):
     def key(rj):
         try:
             e = json.loads(rj["line"])
-            return "stream:rev%s:%s" % ("<54459" if e["rev"] < 54459 else ">=54459", "compressed" if e["compressed"] else "plain")
+            if rj.get("reason") == "settings-dropped":
+                # everything else about the stream is right (TLC checked that): only the caller's settings are not in it
+                return "stream:rev<54429:settings-dropped"
+            return "stream:rev%s:%s" % ("<54429" if e["rev"] < 54429 else "<54459" if e["rev"] < 54459 else ">=54459", "compressed" if e["compressed"] else "plain")
         except Exception:
             return "stream:?"
 
     def desc(rj):
         e = json.loads(rj["line"])
+        if rj.get("reason") == "settings-dropped":
+            sets = [x for x in e["fields"] if x["n"] == "settings"][0]["b"]
+            return "session %s at revision %s: the caller's %d settings are not in the Query packet (the rest of the stream is as specified)" % (e["id"], e["rev"], len(sets))
         return "session %s at revision %s (compressed=%s, err=%s): the %d bytes written during Do are not the expected packet sequence of %d packets" % (
             e["id"], e["rev"], e["compressed"], e["err"], len(e["stream"]), len(e["packets"]))
     run.add_trace_rejections(v, key, desc)
@@ -87,7 +96,7 @@ def body(run):
     run.coverage.update({"states": r.distinct, "transitions": r.generated, "traces_validated_against_impl": len(slines),
                          "trace_lines": v.lines, "trace_lines_accepted": v.accepted_lines, "samples": [s0], "revisions": len(revs)})
     run.assumptions += [
-        "negotiated revisions below 54429 are not exercised: the scripted server of the harness uses the library's Query decoder, which refuses them (and the library writes no settings there at all)",
+        "below revision 54429 the scripted server reads the Query packet with a field-by-field reader of its own (the library's decoder refuses those revisions); a packet with typed binary settings could not be parsed by it",
         "the values the library chooses itself (client name and version, local address, start time) are read back from the packet and only have to make the byte equation hold",
         "CityHash / LZ4 / ZSTD are computed by the harness with third-party libraries; TLC checks the frame header and decodes the decompressed payload",
     ]
